@@ -442,6 +442,42 @@ UNITS = pl.BASE_UNITS + ["skactiveml.utils._label:is_unlabeled", "skactiveml.uti
                          "skactiveml.pool._greedy_sampling:GreedySamplingTarget.query",
                          "skactiveml.pool._expected_error_reduction:ExpectedErrorReduction._concatenate_samples",
                          "skactiveml.pool._uncertainty_sampling:UncertaintySampling.query", "skactiveml.pool._core_set:CoreSet.query"]
+# ---------------------------------------------------------------- SingleAnnotatorWrapper: aggregated labels under encodings
+def sc_saw(d, n, A, encs):
+    """the wrapper aggregates the annotators' labels (majority vote) before it asks the wrapped strategy: a sentinel other
+    than NaN must not take part in that vote"""
+    P = __import__("skactiveml.pool.multiannotator", fromlist=["SingleAnnotatorWrapper"])
+    K = 2
+    idx = [[d.choose(f"label{i}_{a}", [-1, 0, 1]) for a in range(A)] for i in range(n)]
+    if all(k >= 0 for r in idx for k in r):
+        if d.sym:
+            raise core.PathAbort("no missing label")
+        return
+    X = d.arr([[d.fl(f"x{i}", lo=-4.0, hi=4.0)] for i in range(n)], shape=(n, 1))
+    seed = d.integer("seed", 0, 2 ** 31 - 2)
+    outs = []
+    for enc in encs:
+        e = ENC[enc]
+        vals = [[e["missing"] if k < 0 else e["classes"][k] for k in r] for r in idx]
+        y = d.arr(vals, dtype=e["dtype"], shape=(n, A)) if e["dtype"] is not object else d.arr(vals, dtype=object, shape=(n, A))
+        inner = pl.pool().RandomSampling(random_state=seed, missing_label=e["missing"])
+        w = P.SingleAnnotatorWrapper(strategy=inner, random_state=seed, missing_label=e["missing"])
+        try:
+            outs.append(w.query(X, y, batch_size=2, return_utilities=True))
+        except (core.Unencodable, core.PathAbort):
+            raise
+        except Exception as ex:
+            d.prove(False, "query_succeeds_under_every_encoding", info=dict(encoding=enc, error=repr(ex)[:160]))
+            return
+    ref = outs[0]
+    flat = lambda o: [int(v) for v in (arrays.raw(arrays.asnd(o[0])).reshape(-1) if d.sym else np.asarray(o[0]).reshape(-1))]
+    for enc, o in zip(encs[1:], outs[1:]):
+        d.prove(flat(o) == flat(ref), "same_pairs_under_every_encoding", info=dict(encoding=enc, got=flat(o), reference=flat(ref)))
+        d.prove(d.eq_arr(o[1], ref[1], 1e-9) if np.shape(o[1]) == np.shape(ref[1]) else False, "same_utilities_under_every_encoding",
+                info=dict(encoding=enc))
+    d.witness(any(k >= 0 for r in idx for k in r), "some_labels")
+
+
 # ---------------------------------------------------------------- check_X_y (validation helper of the cost-embedding strategy)
 _NAN_SPELLINGS = {"np.nan": np.nan, "float('nan')": float("nan"), "math.nan": __import__("math").nan, "np.float64('nan')": np.float64("nan"),
                   "np.float32('nan')": np.float32("nan")}
@@ -516,6 +552,10 @@ HARNESSES = [
     dual_harness("check_X_y_sentinels", sc_check_x_y,
                  lambda tier: [dict(n=2, enc=e) for e in ENC] + [dict(n=2, enc="float_nan", spelling=sp) for sp in _NAN_SPELLINGS],
                  ["skactiveml.utils._validation:check_X_y"], required_witnesses=("some_missing",)),
+    dual_harness("single_annotator_wrapper_aggregation", sc_saw,
+                 lambda tier: [dict(n=2, A=2, encs=["float_nan", "int_m1"])],
+                 ["skactiveml.pool.multiannotator._wrapper:SingleAnnotatorWrapper.query", "skactiveml.utils._aggregation:majority_vote"],
+                 required_witnesses=("some_labels",)),
 ]
 BOUNDS = dict(quick="n = 3 samples / K = 2 classes for the pool strategies (RandomSampling, UncertaintySampling x2, CoreSet, GreedySamplingX, "
                     "QueryByCommittee), n = 2 for ParzenWindowClassifier and EER sample concatenation, 1x2 label matrices for aggregation; "
